@@ -65,7 +65,7 @@ def mt_runs(ck, tier):
     kinds: plain (threads on different cores), pinned (same binary, both threads on one CPU, busy polling: timer preemption
     at arbitrary instructions opens the few-instruction windows of prepare_read), tsan, asan"""
     quick = tier == 'quick'
-    n = {'plain': 150000, 'pinned': 400000, 'tsan': 25000, 'asan': 40000} if quick else {'plain': 5000000, 'pinned': 20000000, 'tsan': 600000, 'asan': 1000000}
+    n = {'plain': 150000, 'pinned': 400000, 'tsan': 25000, 'asan': 40000} if quick else {'plain': 2000000, 'pinned': 4000000, 'tsan': 300000, 'asan': 1000000}
     flags = {'plain': [], 'pinned': [], 'tsan': ['-fsanitize=thread'], 'asan': ['-fsanitize=address']}
     info = {}
     for kind in ('plain', 'pinned', 'tsan', 'asan'):
